@@ -24,7 +24,7 @@ func TestC09(t *testing.T) {
 		simkit.AddRun()
 		defer simkit.Watch(300*time.Second, "C09 run")()
 		simkit.Guard(func() {
-			runHonest(t, runCfg{prop: "C09", opts: chainsim.WorldOpts{Nodes: [2]int{2, 4}, Validators: [2]int{4, 10}, ValidatorChanges: true, NetFaults: true, RPCFaults: true, SmallCache: true},
+			runHonest(t, runCfg{prop: "C09", opts: chainsim.WorldOpts{Nodes: [2]int{2, 4}, Transactions: true, Validators: [2]int{4, 10}, ValidatorChanges: true, NetFaults: true, RPCFaults: true, SmallCache: true},
 				faults: chainsim.FaultPlan{Partitions: true, Crashes: true}, blocks: [2]int{15, 80}, mutants: true, fuzz: 700 * time.Millisecond}, nil)
 		})
 	})
